@@ -612,6 +612,9 @@ func (t *distributedTarget) replicateRemainingECRules(obj object.Object, ecRules
 			if len(nodes) == 0 {
 				continue
 			}
+			// post-placement replication is asynchronous while encoded parts share
+			// pooled memory released on Close, so the queued object needs its own copy
+			partObj.SetPayload(bytes.Clone(partObj.Payload()))
 			t.postPlacementReplicator.HandlePostPlacement(&partObj, nodes)
 		}
 	}
